@@ -108,6 +108,9 @@ func checkProtocolVersion(b byte) error {
 
 // CheckIntegrity verifies the FIT header CRC.
 func (h Header) CheckIntegrity() error {
+	if h.Size != headerSizeCRC && h.Size != headerSizeNoCRC {
+		return errHeaderSize
+	}
 	if err := checkProtocolVersion(h.ProtocolVersion); err != nil {
 		return err
 	}
